@@ -6,6 +6,8 @@
       dex/router/src/config.rs           (is_active, check_is_pair_sc)
       dex/router/src/factory.rs          (create_pair, getPair, getAllPairsManagedAddresses, get_pair_temporary_owner)
       dex/router/src/multi_pair_swap.rs  (multiPairSwap, actual_swap_fixed_input / _output)
+      dex/router/src/enable_swap_by_user.rs (addCommonTokensForUserPairs, removeCommonTokensForUserPairs,
+                                          configEnableByUserParameters, setSwapEnabledByUser)
       dex/pair/src/lib.rs                (init as run by deploy_from_source, setLpTokenIdentifier)
     Every pair contract of the world is a [Model.Pair.pair]; a hop of multiPairSwap is
     [Pair.ep_swap_in] / [Pair.ep_swap_out] on that pair's state, the router being the intermediate
@@ -84,28 +86,40 @@ Record router := mkRouter {
   r_creation : bool;                  (* pair_creation_enabled *)
   r_owner : Z;                        (* owner *)
   r_map : list (Z * Z * Z);           (* pair_map in iteration (= insertion) order: (first, second, address) *)
-  r_temp : list (Z * Z * Z)           (* pair_temporary_owner: (pair address, creator, creation block) *)
+  r_temp : list (Z * Z * Z);          (* pair_temporary_owner: (pair address, creator, creation block) *)
+  r_common : list Z;                  (* commonTokensForUserPairs *)
+  r_cfg : list (Z * (Z * Z * Z))      (* enableSwapByUserConfig: common token -> (locked token, min value, min lock epochs) *)
 }.
 
 Record world := mkW {
   w_r : router;
   w_pairs : list (Z * pent);          (* every pair contract that exists, registered or not, by address *)
   w_led : ledger;
-  w_block : Z                         (* current block nonce *)
+  w_block : Z;                        (* current block nonce *)
+  w_epoch : Z                         (* current block epoch *)
 }.
 
-Definition set_r (w : world) (r : router) : world := mkW r (w_pairs w) (w_led w) (w_block w).
-Definition set_pairs (w : world) (ps : list (Z * pent)) : world := mkW (w_r w) ps (w_led w) (w_block w).
-Definition set_led (w : world) (l : ledger) : world := mkW (w_r w) (w_pairs w) l (w_block w).
-Definition set_block (w : world) (n : Z) : world := mkW (w_r w) (w_pairs w) (w_led w) n.
+Definition set_r (w : world) (r : router) : world := mkW r (w_pairs w) (w_led w) (w_block w) (w_epoch w).
+Definition set_pairs (w : world) (ps : list (Z * pent)) : world := mkW (w_r w) ps (w_led w) (w_block w) (w_epoch w).
+Definition set_led (w : world) (l : ledger) : world := mkW (w_r w) (w_pairs w) l (w_block w) (w_epoch w).
+Definition set_block (w : world) (n : Z) : world := mkW (w_r w) (w_pairs w) (w_led w) n (w_epoch w).
+Definition set_epoch (w : world) (n : Z) : world := mkW (w_r w) (w_pairs w) (w_led w) (w_block w) n.
 
-Definition set_active (r : router) (b : bool) : router := mkRouter b (r_creation r) (r_owner r) (r_map r) (r_temp r).
-Definition set_creation (r : router) (b : bool) : router := mkRouter (r_active r) b (r_owner r) (r_map r) (r_temp r).
-Definition set_map (r : router) (m : list (Z * Z * Z)) : router := mkRouter (r_active r) (r_creation r) (r_owner r) m (r_temp r).
-Definition set_temp (r : router) (t : list (Z * Z * Z)) : router := mkRouter (r_active r) (r_creation r) (r_owner r) (r_map r) t.
+Definition set_active (r : router) (b : bool) : router :=
+  mkRouter b (r_creation r) (r_owner r) (r_map r) (r_temp r) (r_common r) (r_cfg r).
+Definition set_creation (r : router) (b : bool) : router :=
+  mkRouter (r_active r) b (r_owner r) (r_map r) (r_temp r) (r_common r) (r_cfg r).
+Definition set_map (r : router) (m : list (Z * Z * Z)) : router :=
+  mkRouter (r_active r) (r_creation r) (r_owner r) m (r_temp r) (r_common r) (r_cfg r).
+Definition set_temp (r : router) (t : list (Z * Z * Z)) : router :=
+  mkRouter (r_active r) (r_creation r) (r_owner r) (r_map r) t (r_common r) (r_cfg r).
+Definition set_common (r : router) (l : list Z) : router :=
+  mkRouter (r_active r) (r_creation r) (r_owner r) (r_map r) (r_temp r) l (r_cfg r).
+Definition set_cfg (r : router) (c : list (Z * (Z * Z * Z))) : router :=
+  mkRouter (r_active r) (r_creation r) (r_owner r) (r_map r) (r_temp r) (r_common r) c.
 
-Definition init_router : router := mkRouter true false OWNER [] [].
-Definition init_world (led : ledger) (blk : Z) : world := mkW init_router [] led blk.
+Definition init_router : router := mkRouter true false OWNER [] [] [] [].
+Definition init_world (led : ledger) (blk : Z) : world := mkW init_router [] led blk 1.
 
 (** ------------------------------------------------------------------ factory.rs: pair_map access *)
 Definition key_is (e : Z * Z * Z) (a b : Z) : bool := (fst (fst e) =? a) && (snd (fst e) =? b).
@@ -158,6 +172,7 @@ Definition fresh_addr (w : world) (na : Z) : bool :=
 Definition ep_create_pair (w : world) (c a b adder : Z) (fees : option (Z * Z)) (na : Z)
   : result (world * outs) :=
   let r := w_r w in
+  check r_active r else EState;
   check is_owner w c || r_creation r else EPerm;
   check negb (a =? b) else EGuard;
   check tok_valid a else EGuard;
@@ -264,6 +279,69 @@ Definition ep_issue_lp (w : world) (c addr : Z) : result (world * outs) :=
 Definition ep_set_creation (w : world) (c : Z) (en : bool) : result (world * outs) :=
   check is_owner w c else EPerm;
   Ok (set_r w (set_creation (w_r w) en), []).
+
+(** ------------------------------------------------------------------ enable_swap_by_user.rs *)
+Definition zmem (x : Z) (l : list Z) : bool := existsb (Z.eqb x) l.
+
+Definition ep_add_common (w : world) (c tok : Z) : result (world * outs) :=
+  check is_owner w c else EPerm;
+  check tok_valid tok else EGuard;
+  let r := w_r w in
+  Ok (set_r w (set_common r (if zmem tok (r_common r) then r_common r else r_common r ++ [tok])), []).
+
+Definition ep_remove_common (w : world) (c tok : Z) : result (world * outs) :=
+  check is_owner w c else EPerm;
+  let r := w_r w in
+  Ok (set_r w (set_common r (filter (fun x => negb (x =? tok)) (r_common r))), []).
+
+Fixpoint cfg_get (l : list (Z * (Z * Z * Z))) (k : Z) : option (Z * Z * Z) :=
+  match l with
+  | [] => None
+  | (k', v) :: t => if k' =? k then Some v else cfg_get t k
+  end.
+
+Definition ep_config_enable (w : world) (c common locked minval minep : Z) : result (world * outs) :=
+  check is_owner w c else EPerm;
+  check tok_valid common else EGuard;
+  check tok_valid locked else EGuard;
+  let r := w_r w in
+  check zmem common (r_common r) else EGuard;
+  Ok (set_r w (set_cfg r ((common, (locked, minval, minep)) :: r_cfg r)), []).
+
+(** Locked-token codes: a token code >= 8 stands for a meta-ESDT whose attributes decode as
+    LockedTokenAttributes; [orig] identifies the pair whose LP token the position wraps (its
+    original_token_id), [unlock] its unlock epoch.  The payment returns to the caller at the end, so
+    no balance of the locked token changes. *)
+Definition is_locked_tok (t : Z) : bool := 8 <=? t.
+
+Definition ep_enable_swap (w : world) (c addr ltok orig unlock amt : Z) : result (world * outs) :=
+  let r := w_r w in
+  check r_active r else EState;
+  do pe <- registered w addr;
+  let p := pe_p pe in
+  check (p_state p =? ST_PartialActive) else EState;
+  check (0 <? amt) else EGuard;
+  check is_locked_tok ltok else EGuard;
+  check pe_lp pe else EGuard;
+  check (orig =? addr) else EGuard;
+  let (v1, v2) := view_tokens_for_position p amt in
+  do (common, value) <-
+     (if zmem (pe_t1 pe) (r_common r) then Ok (pe_t1 pe, v1)
+      else if zmem (pe_t2 pe) (r_common r) then Ok (pe_t2 pe, v2)
+      else Err EGuard);
+  match cfg_get (r_cfg r) common with
+  | None => Err EGuard
+  | Some (locked, minval, minep) =>
+      check (ltok =? locked) else EGuard;
+      check (minval <=? value) else EGuard;
+      let locked_epochs := if w_epoch w <? unlock then unlock - w_epoch w else 0 in
+      check (minep <=? locked_epochs) else EGuard;
+      check (match p_adder p with Some ad => c =? ad | None => false end) else EPerm;
+      (* set_fee_percents + pair_resume, called by the router with its owner permissions *)
+      do (p1, _, _) <- step p (SetFee OWNER ROUTER_USER_DEFINED_TOTAL_FEE_PERCENT ROUTER_DEFAULT_SPECIAL_FEE_PERCENT);
+      do (p2, _, _) <- step p1 (SetState OWNER ST_Active);
+      Ok (set_pairs w (upd_pair (w_pairs w) addr (set_pp pe p2)), [])
+  end.
 
 (** ------------------------------------------------------------------ multi_pair_swap.rs *)
 (** one swap operation: (pair address, function, token wanted, amount wanted);
@@ -399,7 +477,12 @@ Inductive rop :=
 | SetLp (c addr : Z)
 | Direct (addr : Z) (op : pop)
 | DonateRouter (c tok amt : Z)
-| SetBlock (n : Z).
+| SetBlock (n : Z)
+| AddCommon (c tok : Z)
+| RemoveCommon (c tok : Z)
+| ConfigEnable (c common locked minval minep : Z)
+| EnableSwap (c addr ltok orig unlock amt : Z)
+| SetEpoch (n : Z).
 
 Definition rstep (w : world) (op : rop) : result (world * outs) :=
   match op with
@@ -420,6 +503,11 @@ Definition rstep (w : world) (op : rop) : result (world * outs) :=
   | Direct addr op => ep_direct w addr op
   | DonateRouter c tok amt => ep_donate_router w c tok amt
   | SetBlock n => Ok (set_block w n, [])
+  | AddCommon c tok => ep_add_common w c tok
+  | RemoveCommon c tok => ep_remove_common w c tok
+  | ConfigEnable c common locked minval minep => ep_config_enable w c common locked minval minep
+  | EnableSwap c addr ltok orig unlock amt => ep_enable_swap w c addr ltok orig unlock amt
+  | SetEpoch n => Ok (set_epoch w n, [])
   end.
 
 (** A failed transaction reverts (nested synchronous calls included): the runner keeps the old world. *)
